@@ -13,6 +13,7 @@ MODULES = [
     "cloudpickle_wrapper",
     "launch",
     "synchronize",
+    "reusable_executor",
     "properties",
 ]
 
